@@ -235,7 +235,7 @@ class Interp:
             # fields of objects created in the constructor (state objects' .protocol, _pingReq.pdu ...)
             if isinstance(obj, tuple) and obj[0] == "new":
                 owner_cls = self.prog.classes.get(obj[1])
-                if field == "protocol" or (field not in self.prog.field_roles()["mutable"]):
+                if field == "protocol" or (field not in self.prog.field_roles()["mutable"]) or not self._assigned_via_holder(obj, field, heap):
                     if field in ("encoded",):
                         continue
                     stable[(obj, field)] = val
@@ -510,6 +510,50 @@ class Interp:
             else:
                 yield from go(targets[1:], s)
         yield from go(n.targets, st)
+
+    def _assigned_via_holder(self, obj, field, heap):
+        """The field NAME is assigned somewhere outside the constructors; is it assigned on THIS constructor-made object?  The object is
+        reached through the protocol attribute(s) that hold it (self._pingReq): an assignment `X.field = ..` can touch it only if X is
+        rooted there - an attribute chain through the holder, a local bound from one, or a parameter some call site fills with one.
+        True (= treat as mutable) when such an assignment exists or the object has no single holder to reason with."""
+        holders = {f for (o, f), v in heap.items() if o == SELF and v == obj}
+        if len(holders) != 1:
+            return True
+        h = next(iter(holders))
+
+        def mentions_holder(e):
+            return any(isinstance(y, ast.Attribute) and y.attr == h for y in ast.walk(e))
+
+        def rooted(x, fn, depth=0):
+            if mentions_holder(x):
+                return True
+            if isinstance(x, ast.Name) and depth < 3:
+                for m in ast.walk(fn.node):
+                    if isinstance(m, ast.Assign) and any(isinstance(t, ast.Name) and t.id == x.id for t in m.targets) and rooted(m.value, fn, depth + 1):
+                        return True
+                if x.id in fn.params and x.id != "self":
+                    idx = fn.params.index(x.id) - (1 if fn.params[:1] == ["self"] else 0)
+                    for g in self.prog.funcs.values():
+                        for c in ast.walk(g.node):
+                            if isinstance(c, ast.Call) and ((isinstance(c.func, ast.Attribute) and c.func.attr == fn.name)
+                                                            or (isinstance(c.func, ast.Name) and c.func.id == fn.name)):
+                                arg = c.args[idx] if 0 <= idx < len(c.args) else next((k.value for k in c.keywords if k.arg == x.id), None)
+                                if arg is not None and (mentions_holder(arg) or any(isinstance(a_, ast.Starred) for a_ in c.args)):
+                                    return True
+            return False
+        ctor = self.prog.constructor_helpers()
+        for fn in self.prog.funcs.values():
+            if fn.name == "__init__" or (fn.cls is not None and fn.parent is None and fn.name in ctor):
+                continue
+            for n in ast.walk(fn.node):
+                tgts = n.targets if isinstance(n, ast.Assign) else ([n.target] if isinstance(n, (ast.AugAssign, ast.AnnAssign)) else [])
+                for t in tgts:
+                    for tt in (t.elts if isinstance(t, (ast.Tuple, ast.List)) else [t]):
+                        if isinstance(tt, ast.Attribute) and tt.attr == field and rooted(tt.value, fn):
+                            return True
+                if isinstance(n, ast.Call) and isinstance(n.func, ast.Name) and n.func.id == "setattr" and n.args and rooted(n.args[0], fn):
+                    return True
+        return False
 
     def _drop_reg_facts(self, st, reg):
         for k in [k for k in st.facts if mentions(k, ("regtop", reg)) or any(
